@@ -30,7 +30,11 @@ func (un *Unit) execPanic(fr *Frame, st *State, in *ssa.Panic) {
 		if n := un.safetyN[name]; n > 1 {
 			name = fmt.Sprintf("%s#%d", name, n)
 		}
-		o := &Obl{Name: name, Kind: "safety", Guard: st.guard, Goal: allowed, NFacts: len(un.facts), Pos: un.posOf(in.Pos()), Fn: funcKey(un.fn), Text: "explicit panic reachable only when declared"}
+		var props []string
+		if un.contract != nil {
+			props = un.contract.Safety
+		}
+		o := &Obl{Name: name, Kind: "safety", Props: props, Guard: st.guard, Goal: allowed, NFacts: len(un.facts), Pos: un.posOf(in.Pos()), Fn: funcKey(un.fn), Text: "explicit panic reachable only when declared"}
 		un.obls = append(un.obls, o)
 	}
 	st.guard = "false"
@@ -69,10 +73,13 @@ func (un *Unit) execInstr(fr *Frame, st *State, in ssa.Instruction) {
 			return
 		}
 		if at, ok := et.Underlying().(*types.Array); ok {
-			// local array: cell holding an SMT array; element pointers index into it
-			p := &Place{comp: un.cellComp(et), keys: []string{ref}, typ: et}
+			// array object: lives in the element heap (so that slices of it alias it); element pointers index into it
+			if isStructType(at.Elem()) {
+				un.outside = "array of structs"
+				return
+			}
+			p := &Place{comp: un.elemComp(at.Elem()), keys: []string{ref}, typ: et}
 			un.storePlace(st, p, un.zero(et))
-			_ = at
 			un.bind(fr, in, Val{t: ref, place: p})
 			return
 		}
@@ -120,7 +127,7 @@ func (un *Unit) execInstr(fr *Frame, st *State, in ssa.Instruction) {
 				un.bind(fr, in, Val{t: "0", place: &Place{comp: x.place.comp, keys: keys, typ: at.Elem(), local: x.place.local}})
 				return
 			}
-			c := un.cellComp(xt.Elem())
+			c := un.elemComp(at.Elem())
 			un.bind(fr, in, Val{t: "0", place: &Place{comp: c, keys: []string{x.t, idx}, typ: at.Elem()}})
 		default:
 			un.outside = "IndexAddr on " + in.X.Type().String()
@@ -926,8 +933,19 @@ func (un *Unit) execSlice(fr *Frame, st *State, in *ssa.Slice) {
 		un.bind(fr, in, Val{t: fmt.Sprintf("(str.substr %s %s (- %s %s))", x.t, lo, hi, lo)})
 	case *types.Pointer: // pointer to array
 		at := xt.Elem().Underlying().(*types.Array)
-		_ = at
-		un.outside = "slicing a pointer to array"
+		arr := x.t
+		if x.place != nil && len(x.place.keys) == 1 {
+			arr = x.place.keys[0]
+		}
+		n := un.intConst(at.Len(), intT)
+		hi := n
+		if in.High != nil {
+			hi = un.val(fr, in.High).t
+		}
+		un.safety(st, fr, "slice-bounds", "lo", un.cmp("<=", intT, zero, lo), in.Pos())
+		un.safety(st, fr, "slice-bounds", "lo<=hi", un.cmp("<=", intT, lo, hi), in.Pos())
+		un.safety(st, fr, "slice-bounds", "hi<=len", un.cmp("<=", intT, hi, n), in.Pos())
+		un.bind(fr, in, Val{t: fmt.Sprintf("(mk_slice %s %s %s %s)", arr, lo, un.subI(hi, lo), un.subI(n, lo))})
 	default:
 		un.outside = "slice of " + in.X.Type().String()
 	}
